@@ -812,8 +812,8 @@ func (e *Engine) bytesToString(st *State, v Val, to types.Type) Val {
 	n := st.freshConst("str", "Str")
 	st.assume(eq(n, app))
 	st.assume(eq(strLen(n), slLen(v.S)))
-	st.assume(fmt.Sprintf("(forall ((i Int)) (! (= (select %s i) (ite (and (<= 0 i) (< i %s)) (select (select %s %s) (+ %s i)) 0)) :pattern ((select %s i))))",
-		strArr(n), slLen(v.S), h, slRef(v.S), slOff(v.S), strArr(n)))
+	st.assume(fmt.Sprintf("(forall ((i Int)) (! (= (select %s i) (ite (and (<= 0 i) (< i %s)) (select (select %s %s) %s) 0)) :pattern ((select %s i))))",
+		strArr(n), slLen(v.S), h, slRef(v.S), ix(slOff(v.S), "i"), strArr(n)))
 	return Val{S: n, T: to}
 }
 
@@ -976,7 +976,7 @@ func (e *Engine) execIndexAddr(st *State, fr *Frame, x *ssa.IndexAddr) {
 	switch t := x.X.Type().Underlying().(type) {
 	case *types.Slice:
 		st.check("index", name(), fmt.Sprintf("(and (<= 0 %s) (< %s %s))", idx.S, idx.S, slLen(base.S)), x.Pos())
-		a := &Addr{Kind: AElem, Base: slRef(base.S), Idx: add(slOff(base.S), idx.S), RootT: t.Elem(), T: t.Elem()}
+		a := &Addr{Kind: AElem, Base: slRef(base.S), Idx: ix(slOff(base.S), idx.S), RootT: t.Elem(), T: t.Elem()}
 		fr.regs[x] = Val{S: "0", T: x.Type(), A: a}
 	case *types.Pointer:
 		at := t.Elem().Underlying().(*types.Array)
